@@ -471,7 +471,7 @@ fn run_cloudconc(args: &Args) {
                 }
                 None => (2 + crng.below(3) as usize, None),
             };
-            let mut run = cloudconc::Conc::new(n, cleanup);
+            let mut run = cloudconc::Conc::new(n, cleanup, &mut crng);
             lines.push(format!("CLIENTS {}", n));
             outs.push(String::new());
             let mut g = cloudconc::ConcGen { n, acked: Vec::new(), nd: 0, cleanup, cleaning: vec![false; n], snap_next: vec![None; n] };
